@@ -251,7 +251,7 @@ impl<'a> Recovery<'a> {
                     val.push(b'a' + (val.len() % 26) as u8);
                 }
                 let inv_len = fs.mut_log_len();
-                let r = call("put", || db.put(WriteOptions::default(), key.clone(), val.clone()));
+                let r = call("put", || db.put(wopts(), key.clone(), val.clone()));
                 let ret_len = fs.mut_log_len();
                 match r {
                     Called::Ok(Ok(())) => {
@@ -408,7 +408,7 @@ pub fn body(case: &Case, out: &Shared) {
                 }
             }
             let inv_len = fs.mut_log_len();
-            let r = call("apply", || d.apply(WriteOptions::default(), b));
+            let r = call("apply", || d.apply(wopts(), b));
             let ret_len = fs.mut_log_len();
             with_out(out, |o| o.stats.writes += 1);
             match r {
@@ -515,7 +515,7 @@ pub fn body(case: &Case, out: &Shared) {
                             }
                         }
                         let inv_len = fs2.mut_log_len();
-                        let r = call("apply", || d2.apply(WriteOptions::default(), b));
+                        let r = call("apply", || d2.apply(wopts(), b));
                         let ret_len = fs2.mut_log_len();
                         with_out(&o2, |o| {
                             o.stats.writes += 1;
